@@ -69,7 +69,7 @@ fn c05_frame_copy_from_bounded() {
     let src: usize = kani::any();
     let dst: usize = kani::any();
     let len: usize = kani::any();
-    kani::assume(len <= 12 && src + len <= 40 && dst + len <= 40);
+    kani::assume(len <= 12 && src <= 40 && dst <= 40 && src + len <= 40 && dst + len <= 40);
     kani::assume(src + len <= dst || dst + len <= src);
     let mut from = Frame::new(0, 40);
     from.move_cursor_forward(src);
